@@ -17,7 +17,11 @@ UNDEF = ("undef",)
 _NONNEG = set()   # values known non-negative from the kernel's own assumptions (reset per function)
 _RANGES = {}      # signed value ranges of parameters from the kernel's own entry assumptions (reset per function)
 _DOMAINS = {}
-_FIXED = {}     # the same knowledge as interval sets of bit patterns (vlib.iset.ISet), per parameter
+_FIXED = {}
+import threading
+# the harvested knowledge above is module state: every use of this module from a worker thread holds LOCK for the whole
+# gated()/expand() sequence of one obligation (kern._gated_match, C13.selection_trees)
+LOCK = threading.RLock()     # the same knowledge as interval sets of bit patterns (vlib.iset.ISet), per parameter
 
 
 class Unsupported(Exception):
@@ -549,6 +553,12 @@ def mk_call(ty, name, args):
         if _key(a0[1]) > _key(a1[1]):
             args = [a1, a0] + list(args[2:])
     bits = _bits(ty)
+    if bits and n.startswith("llvm.abs.") and len(args) == 2:
+        # |x| written out (the poison flag for the most negative value is dropped: UB-freedom is C07's subject)
+        x = args[0][1]
+        if is_c(x):
+            return C(bits, abs(sval(x)))
+        return mk_ite(mk_icmp("slt", ty, x, C(bits, 0)), mk_bin("sub", ty, C(bits, 0), x), x)
     # saturating / min-max intrinsics with one constant operand: written out as the comparison they abbreviate
     if bits and len(args) == 2 and (is_c(args[0][1]) != is_c(args[1][1])):
         m_ = re.match(r"llvm\.(sadd|uadd|ssub|usub)\.sat\.|llvm\.(smax|smin|umax|umin)\.", n)
